@@ -716,3 +716,75 @@ package log
 //@   ensures[C05:inner-first] stops == stopR(f.appenders, len(f.appenders), tsnoc(old(stops), 4, ifval(f.logger), iftag(f.logger), 0, ""))
 //@   loop 1 invariant[C05:range] 0 <= $k && $k <= len(f.appenders)
 //@   loop 1 invariant[C05:prefix] stops == stopR(f.appenders, $k, tsnoc(old(stops), 4, ifval(f.logger), iftag(f.logger), 0, ""))
+
+// ---- C04 / C05 / C06 / C12: the asynchronous logger -------------------------------------------------------
+// The verifier keeps a ghost protocol of channel operations (enq: sends, deq: receives, chlog: both plus
+// closes, blocked: potentially blocking operations, spawned: go statements); interleavings are not
+// explored -- each function is proved to account for every item it accepts or takes from the buffer:
+//    (items it enqueued) + (increments of the discard counter) == (items it accepted) + (items it dequeued)
+// and the worker to deliver every item it receives exactly once.  Conservation over a whole run then
+// follows from FIFO channels and the Stop protocol (meta-argument in DESIGN.md, not mechanised).
+
+// only events (including the stop marker) and raw byte slices travel through the buffer
+//@ chaninv AsyncLogger.buf: (dyn(v, *Event) && ifval(v) != 0) || dyn(v, []byte)
+
+//@ spec fun asyncReady(c *AsyncLogger) bool = c != nil && c.buf != nil && !closed[c.buf] && (c.BufferFullPolicy == 0 || c.BufferFullPolicy == 1 || c.BufferFullPolicy == 2)
+
+//@ func (*AsyncLogger).onBufferFull
+//@   requires asyncReady(c) && ((dyn(v, *Event) && ifval(v) != 0 && !pooled[ifval(v)]) || dyn(v, []byte))
+//@   modifies enq, deq, chlog, blocked, pooled, c.discardCounter, all(Event)
+//@   ensures[C04,C06:discard-drops-the-arriving-item] c.BufferFullPolicy == 1 ==> enq == old(enq) && deq == old(deq) && c.discardCounter == old(c.discardCounter) + 1 && blocked == old(blocked)
+//@   ensures[C04,C06:block-waits-and-enqueues] c.BufferFullPolicy == 0 ==> enq == tsnoc(old(enq), 9, c.buf, ifval(v), iftag(v), "") && deq == old(deq) && c.discardCounter == old(c.discardCounter)
+//@   ensures[C04,C06:discard-oldest-keeps-the-arriving-item] c.BufferFullPolicy == 2 ==> enq == tsnoc(old(enq), 9, c.buf, ifval(v), iftag(v), "") && blocked == old(blocked) && c.discardCounter - old(c.discardCounter) == tlen(deq) - tlen(old(deq))
+//@   ensures[C03:event-handed-over] dyn(v, *Event) ==> pooled[ifval(v)]
+//@   loop 1 invariant[C06:not-yet-enqueued] !exit && enq == old(enq) && blocked == old(blocked) && !closed[c.buf]
+//@   loop 1 invariant[C04:drops-counted] c.discardCounter - old(c.discardCounter) == tlen(deq) - tlen(old(deq))
+//@   loop 1 invariant[C03:still-owned] dyn(v, *Event) ==> !pooled[ifval(v)]
+
+//@ func (*AsyncLogger).Append
+//@   requires asyncReady(c) && e != nil && !pooled[e]
+//@   let on = enable(c.Level, e.Level)
+//@   modifies enq, deq, chlog, blocked, pooled, c.discardCounter, all(Event)
+//@   ensures[C01,C04:below-level-neither-delivered-nor-counted] !on ==> enq == old(enq) && deq == old(deq) && c.discardCounter == old(c.discardCounter)
+//@   ensures[C04:accounted] on ==> (tlen(enq) - tlen(old(enq))) + (c.discardCounter - old(c.discardCounter)) == 1 + (tlen(deq) - tlen(old(deq)))
+//@   ensures[C04,C06:what-is-enqueued-is-the-event] enq == old(enq) || enq == tsnoc(old(enq), 9, c.buf, e, typetag(*Event), "")
+//@   ensures[C04:block-never-drops] on && c.BufferFullPolicy == 0 ==> c.discardCounter == old(c.discardCounter) && enq != old(enq)
+//@   ensures[C06:discard-policies-never-wait] c.BufferFullPolicy != 0 ==> blocked == old(blocked)
+//@   ensures[C03:event-handed-over] pooled[e]
+
+//@ func (*AsyncLogger).Write
+//@   requires asyncReady(c)
+//@   modifies enq, deq, chlog, blocked, pooled, c.discardCounter, all(Event)
+//@   ensures[C04:accounted] (tlen(enq) - tlen(old(enq))) + (c.discardCounter - old(c.discardCounter)) == 1 + (tlen(deq) - tlen(old(deq)))
+//@   ensures[C12:queued-bytes-are-a-private-copy] enq == old(enq) || (enq == tsnoc(old(enq), 9, c.buf, tb(enq), typetag([]byte), "") && (len(b) == 0 || sref(as(mkiface(typetag([]byte), tb(enq)), []byte)) != sref(b)) && content(as(mkiface(typetag([]byte), tb(enq)), []byte)) == content(b))
+//@   ensures[C04:block-never-drops] c.BufferFullPolicy == 0 ==> c.discardCounter == old(c.discardCounter) && enq != old(enq)
+//@   ensures[C06:discard-policies-never-wait] c.BufferFullPolicy != 0 ==> blocked == old(blocked)
+
+//@ func (*AsyncLogger).GetDiscardCounter
+//@   requires c != nil
+//@   modifies nothing
+//@   ensures[C04:counter] result == c.discardCounter
+
+//@ func (*AsyncLogger).Stop
+//@   requires c != nil && c.buf != nil && !closed[c.buf] && c.stop != nil
+//@   modifies enq, deq, chlog, blocked, pooled, closed[c.buf]
+//@   ensures[C05:marker-then-wait-then-close] chlog == tsnoc(tsnoc(tsnoc(old(chlog), 9, c.buf, c.stop, typetag(*Event), ""), 11, c.wait, 0, 0, ""), 12, c.buf, 0, 0, "")
+//@   ensures[C05:buffer-closed] closed[c.buf]
+
+//@ func (*AsyncLogger).Start
+//@   requires c != nil && wfRefs(c.AppenderRefs)
+//@   modifies c.buf, c.wait, c.stop, spawned, closed, chanCap
+//@   ensures[C04:buffer-too-small] c.BufferSize < 100 ==> result != nil && spawned == old(spawned)
+//@   ensures[C05,C06:buffer-and-exactly-one-worker] c.BufferSize >= 100 ==> result == nil && c.buf != nil && !closed[c.buf] && chanCap[c.buf] == c.BufferSize && c.wait != nil && !closed[c.wait] && c.stop != nil && spawned == tsnoc(old(spawned), 10, fn("(*AsyncLogger).Start$1"), 0, 0, "")
+
+// the worker: takes one item at a time, finishes it (delivers it exactly once) before taking the next
+//@ func (*AsyncLogger).Start$1
+//@   requires c != nil && c.buf != nil && c.wait != nil && !closed[c.wait] && c.stop != nil && wfRefs(c.AppenderRefs)
+//@   modifies deq, chlog, blocked, pooled, dlv, lastBytes, all(Event), closed[c.wait]
+//@   loop 1 invariant[C05:wait-open] !closed[c.wait]
+//@   loop 1 iteration[C01,C04:event-delivered-exactly-once] dyn(v, *Event) && c.Layout == nil ==> dlv == fanout(c.AppenderRefs, len(c.AppenderRefs.AppenderRefs), as(v, *Event), iter(as(v, *Event).Level), iter(dlv))
+//@   loop 1 iteration[C01,C04:event-formatted-and-delivered-exactly-once] dyn(v, *Event) && c.Layout != nil ==> dlv == fanoutW(c.AppenderRefs, len(c.AppenderRefs.AppenderRefs), iter(as(v, *Event).Level), sref(lastBytes), len(lastBytes), content(lastBytes), iter(dlv))
+//@   loop 1 iteration[C04,C12:raw-write-delivered-exactly-once] dyn(v, []byte) ==> dlv == fanoutAll(c.AppenderRefs, len(c.AppenderRefs.AppenderRefs), sref(as(v, []byte)), len(as(v, []byte)), content(as(v, []byte)), iter(dlv))
+//@   loop 1 iteration[C03:event-released-after-delivery] dyn(v, *Event) ==> pooled[ifval(v)]
+//@   loop 1 iteration[C06:one-item-per-iteration] deq == tsnoc(iter(deq), 11, c.buf, ifval(v), iftag(v), "")
+//@   ensures[C05:wait-closed-when-done] closed[c.wait] && tkind(chlog) == 12 && ta(chlog) == c.wait
